@@ -346,12 +346,12 @@ rules' verdict on the positions of that game -/
 theorem repeated_along_game (c : Cfg) (g0 : Game) (ms : List Move) (pos' : Rules.Pos) (hs : Sync c g0)
     (h0 : g0.history = []) (hl : Rules.legalPos (Rules.ofGame g0) = true)
     (hp : LegalPath (Rules.ofGame g0) ms pos')
-    (hinj : ∀ p ∈ trail (Rules.ofGame g0) ms [], keyOf c p = keyOf c pos' → Rules.samePosition pos' p = true) :
+    (hinj : ∀ p ∈ trail (Rules.ofGame g0) ms [], posKey c p = posKey c pos' → Rules.samePosition pos' p = true) :
     ∃ g', makeMoves c g0 ms = some g' ∧ Rules.ofGame g' = pos' ∧
       g'.isRepeated = Rules.isRepeated pos' (trail (Rules.ofGame g0) ms []) := by
   obtain ⟨g', h1, h2, h3, h4⟩ := game_history c g0 ms pos' [] hs (ginv_of_legal _ hl) hp (by rw [h0]; rfl)
   refine ⟨g', h1, h2, ?_⟩
-  refine repeated_exact g' pos' _ (keyOf c) (by rw [← h2]; rfl) h4 (by rw [key_ofGame c g' h3, h2]) ?_
+  refine repeated_exact g' pos' _ (posKey c) (by rw [← h2]; rfl) h4 (by rw [key_ofGame c g' h3, h2]) ?_
   intro p hp
   exact ⟨hinj p hp, fun h => samePosition_key c pos' p h⟩
 
